@@ -82,8 +82,9 @@ def run(tier, seed, replay=None):
             rep = vlib.run_harness(bin_, ["c07"] + common + ["-trace-out", prefix, "-every", str(every), "-procs", str(procs)], timeout=14000)
             if rep.get("extra", {}).get("read_error") or rep.get("extra", {}).get("shards_failed"):
                 raise vlib.Infra("c07 harness failed: %s" % rep.get("extra"))
-            if rep["evaluations"] and rep["inconclusive"] > 0.2 * rep["evaluations"] and not rep["divergences"]:
-                # the machine is busy: the real-time TTL steps were disturbed; repeat with a coarser clock and fewer processes
+            if rep["evaluations"] and rep["evaluations"] <= 20000 and rep["inconclusive"] > 0.2 * rep["evaluations"] and not rep["divergences"]:
+                # the machine is busy: the real-time TTL steps were disturbed; repeat with a coarser clock and fewer processes (the
+                # configurations of the quick tier; the thorough ones are too large to be run twice)
                 vlib.log("[readers] %s/%s: timing disturbed (%d of %d inconclusive), repeating with a 40 ms clock unit" % (name, label, rep["inconclusive"], rep["evaluations"]))
                 for old_trace in glob.glob(prefix + ".*"):
                     os.remove(old_trace)
